@@ -99,6 +99,7 @@ class Builder:
     def __init__(self, fv):
         self.fv = fv
         self.count = {}
+        self.classes = []          # (node kind, pattern) pairs this program exercises, for the evidence
 
     def nth(self, kind):
         self.count[kind] = self.count.get(kind, 0) + 1
@@ -106,11 +107,15 @@ class Builder:
 
     def ann(self, kind, tag):
         j = self.nth("ann:" + kind)
-        return ann_of(pat_at(ANN_PATS, self.fv["ann"][kind], j), tag)
+        pat = pat_at(ANN_PATS, self.fv["ann"][kind], j)
+        self.classes.append("annotations %s %s" % (kind, pat))
+        return ann_of(pat, tag)
 
     def cmt(self, kind, tag):
         j = self.nth("cmt:" + kind)
-        return cmt_of(pat_at(CMT_PATS, self.fv["cmt"][kind], j), tag, kind in ("field", "enumvalue", "arg", "throw"))
+        pat = pat_at(CMT_PATS, self.fv["cmt"][kind], j)
+        self.classes.append("comments %s %s" % (kind, pat))
+        return cmt_of(pat, tag, kind in ("field", "enumvalue", "arg", "throw"))
 
     def deco(self, node, kind, tag):
         node["ann"] = self.ann(kind, tag)
@@ -121,6 +126,7 @@ class Builder:
 
     def ids(self, holder, n):
         pat = pat_at(ID_PATS, self.fv["ids"][holder], self.nth("ids:" + holder))
+        self.classes.append("ids %s %s n=%d" % (holder, pat, min(n, 3)))
         if pat == "explicit":
             return list(range(1, n + 1))
         if pat == "implicit":
@@ -145,6 +151,7 @@ class Builder:
         return out
 
     def enum(self, name, pat, vals):
+        self.classes.append("enum-numbers %s" % pat)
         if pat == "implicit":
             nums = [None] * len(vals)
         elif pat == "explicit":
@@ -243,6 +250,7 @@ class Builder:
         if fv.get("dexp"):
             cs.append(("CDExp", "double", {"d": "1.5e3"}))
         for name, ty, v in cs:
+            self.classes.append("const %s %s" % (name.rstrip("0123456789"), ty if "." not in ty else "included-type"))
             d.append(self.deco({"k": "const", "name": name, "type": T(ty), "value": v}, "const", name))
         # ---- struct-likes
         rot = fv.get("rot", 0)
@@ -726,6 +734,68 @@ def queries(img, compiled=False):
     return qs, qa
 
 
+def type_at(img, q):
+    F = img[q["f"] - 1]
+    k = q["kind"]
+    if k in ("struct", "union", "exception"):
+        t = F[PLURAL[k]][q["n"] - 1]["fields"][q["m"] - 1]["type"]
+    elif k == "typedef":
+        t = F["typedefs"][q["n"] - 1]["type"]
+    else:
+        t = F["consts"][q["n"] - 1]["type"]
+    for c in q["sel"]:
+        t = t["args"][0] if (c == "k" or t["w"] != "map") else t["args"][1]
+    return t
+
+
+def via_clash(img, q):
+    """does the query go through an include alias that two includes of the file share?"""
+    if not q["f"]:
+        return False
+    F = img[q["f"] - 1]
+
+    def clash(pre):
+        return pre != "" and sum(1 for i in F["incs"] if i["alias"] == pre) > 1
+    if q["q"] in ("get", "lookup", "inc", "method"):
+        return clash(q["pre"])
+    if q["q"] == "parent":
+        return clash(F["services"][q["n"] - 1]["base"]["pre"])
+    if q["q"] == "tref":
+        return clash(type_at(img, q)["pre"])
+    return False
+
+
+def has_map_values(F):
+    """does the file have a map-valued constant / default anywhere (also nested)?"""
+    def hm(v):
+        if v["t"] == "map":
+            return True
+        if v["t"] == "list":
+            return any(hm(x) for x in v["items"])
+        return False
+    vals = [c["value"] for c in F["consts"]]
+    for k in ("structs", "unions", "exceptions"):
+        for sd in F[k]:
+            vals += [f["def"] for f in sd["fields"] if f["hasdef"]]
+    for sv in F["services"]:
+        for mth in sv["methods"]:
+            vals += [f["def"] for f in mth["args"] + mth["throws"] if f["hasdef"]]
+    return any(hm(v) for v in vals)
+
+
+def state_dependent(img, q):
+    """can the answer change while other files of the program are (not yet) registered?"""
+    if q["q"] in ("fd", "inc", "bygo", "togo", "own", "glob", "lookup"):
+        return True
+    if q["q"] in ("get", "method"):
+        return q["pre"] != ""
+    if q["q"] == "parent":
+        return img[q["f"] - 1]["services"][q["n"] - 1]["base"]["pre"] != ""
+    if q["q"] == "tref":
+        return type_at(img, q)["pre"] != ""
+    return False
+
+
 def harness_types(img):
     """per file the stand-in Go types for the in-process registry (typedefs with one gty share a type)"""
     first = {}
@@ -832,7 +902,7 @@ def _cmp_fields(D, at, exp, obs, path):
         _cmp_common(D, a, e, o, path)
         if o["id"] != e["id"]:
             D.add(a + ".id", "id", e["id"], o["id"])
-        reqs = {e["req"]} | ({"optional"} if e["optok"] else set())
+        reqs = set(e["reqs"])
         if str(o["req"]).lower() not in reqs:
             D.add(a + ".req", "requiredness", sorted(reqs), o["req"])
         _cmp_type(D, a + ".type", e["type"], o["type"], path)
